@@ -380,3 +380,94 @@ def rf15(run):
     if not ok:
         run.violation(rule, tu.funcs[cl[0]], 'create_label outside to_lab', 'create_label is called in the binary reader from %s, outside the '
                       'label table function to_lab' % sorted(set(cl)), line=tu.funcs[cl[0]].line)
+
+
+# ---------------------------------------------------------------------------------------------
+# RF7j: the byte callbacks are the only sink / source of the binary writer / reader
+# ---------------------------------------------------------------------------------------------
+
+def rf7j(run):
+    rule = 'RF7j'
+    run.rule(rule, 'binary I/O: the FILE* remembered in the context (io_file) is read only by the two one-line adaptors file_writer / '
+                   'file_reader and assigned only by functions that immediately pass the matching adaptor to the *_with_func entry '
+                   'point; the compression sink/source (reduce_writer / reduce_reader) move every byte through io_writer / io_reader. '
+                   'So a stream produced through a user callback is byte-for-byte what a FILE* would have received')
+    tu = run.tu('mir')
+    n = 0
+    readers, writers = [], []
+    for f in tu.func_list:
+        if f.body is None or not f.relfile().endswith('mir.c'):
+            continue
+        par = None
+        for x in f.walk():
+            if x['k'] == 'MemberExpr' and x['n'] == 'io_file':
+                p = f.parent_of(x)
+                while p is not None and p['k'] in F.CASTS or (p is not None and p['k'] == 'ParenExpr'):
+                    p = f.parent_of(p)
+                is_write = p is not None and p['k'] == 'BinaryOperator' and p['op'] == '=' and F.strip(p['c'][0]) is x
+                (writers if is_write else readers).append((f, x, p))
+    if not readers or not writers:
+        raise F.AnalysisBroken('no uses of io_file found in mir.c')
+    ADAPT = {'file_writer': ('fputc', 'MIR_write_module_with_func'), 'file_reader': ('fgetc', 'MIR_read_with_func')}
+    for f, x, p in readers:
+        n += 1
+        ok = f.name in ADAPT
+        run.functions_analysed.add(('mir', f.name))
+        run.ob(rule, ('io_file-read', f.name, x['l']), ok, {'function': f.name, 'line': x['l']})
+        if not ok:
+            run.violation(rule, f, 'read of io_file', '%s uses the remembered FILE* directly: after any FILE-based call the context keeps that '
+                          'pointer, so a later callback-based write/read would go to the stale FILE instead of the callback' % f.name, line=x['l'])
+    for f, x, p in writers:
+        n += 1
+        run.functions_analysed.add(('mir', f.name))
+        cfg = f.cfg
+        b = cfg.block_of(p)
+        tg = set()
+        for ad, (_io, entry) in ADAPT.items():
+            tg |= rf_flow_blocks(cfg, lambda z: z['k'] == 'CallExpr' and z.get('callee') == entry
+                                 and any(F.strip(a)['k'] == 'DeclRefExpr' and F.strip(a)['n'] == ad for a in F.call_args(z)))
+        if F.const_value(p['c'][1]) == 0:
+            run.ob(rule, ('io_file-clear', f.name, x['l']), True, {'function': f.name, 'clears the remembered FILE*': True})
+            continue
+        rhs_param = F.strip(p['c'][1])['k'] == 'DeclRefExpr' and F.strip(p['c'][1]).get('dk') == 'param'
+        seen = cfg.reachable_from(b, avoid=lambda q: q in tg) if b is not None else {cfg.exit}
+        ok = b is not None and rhs_param and bool(tg) and (b in tg or cfg.exit not in seen)
+        run.ob(rule, ('io_file-write', f.name, x['l']), ok, {'function': f.name, 'assigned from a FILE* parameter': rhs_param,
+                                                            'followed by the adaptor call on every path': ok})
+        if not ok:
+            run.violation(rule, f, 'assignment of io_file', '%s sets the remembered FILE* without handing file_writer/file_reader to the '
+                          '*_with_func entry point on every path' % f.name, line=x['l'])
+    # adaptors are one call of the stdio byte function on io_file
+    for ad, (io, _e) in ADAPT.items():
+        f = tu.func(ad)
+        calls = [z for z in f.walk() if z['k'] == 'CallExpr']
+        ok = len(calls) == 1 and calls[0].get('callee') == io
+        n += 1
+        run.ob(rule, ('adaptor', ad), ok, {'adaptor': ad, 'body': F.src(F.kids(f.body)[0])[:60] if F.kids(f.body) else ''})
+        if not ok:
+            run.violation(rule, f, 'adaptor %s' % ad, '%s must be exactly one %s on io_file' % (ad, io), line=f.line)
+    # the compression sink / source use the callbacks for every byte
+    for fn, cb in (('reduce_writer', 'io_writer'), ('reduce_reader', 'io_reader')):
+        f = tu.func(fn)
+        run.functions_analysed.add(('mir', fn))
+        cfg = f.cfg
+        cbb = rf_flow_blocks(cfg, lambda z: z['k'] == 'CallExpr' and z.get('callee') is None and F.src(F.strip(z['c'][0])).endswith('->' + cb))
+        stdio = [z for z in f.walk() if z['k'] == 'CallExpr' and z.get('callee') in ('fwrite', 'fread', 'fputc', 'fgetc', 'putc', 'getc', 'fputs', 'write', 'read')]
+        rets = [r for r in f.walk() if r['k'] == 'ReturnStmt']
+        # every return lies after the byte loop: no return is reachable from the entry without passing the loop header that guards the callback
+        hdrs = {H.id for H in cfg.blocks.values() if H.cond is not None and len(H.succs) == 2 and any(s_ in cbb or (s_ is not None and cbb & cfg.reachable_from(s_, avoid=lambda q: q == H.id)) for s_ in H.succs[:1])}
+        early = cfg.exit in cfg.reachable_from(cfg.entry, avoid=lambda q: q in hdrs) if hdrs else True
+        ok = bool(cbb) and not stdio and not early
+        n += 1
+        run.ob(rule, ('sink', fn), ok, {'function': fn, 'calls %s' % cb: bool(cbb), 'stdio calls': [z['callee'] for z in stdio],
+                                       'can return before the byte loop': early})
+        if not ok:
+            run.violation(rule, f, 'byte path of %s' % fn, '%s %s: bytes can bypass the %s callback'
+                          % (fn, 'calls %s directly' % stdio[0]['callee'] if stdio else 'can return without entering the per-byte loop', cb),
+                          line=(stdio[0]['l'] if stdio else f.line))
+    return n
+
+
+def rf_flow_blocks(cfg, pred):
+    import rf_flow
+    return rf_flow.blocks_with(cfg, pred)
